@@ -193,6 +193,39 @@ def _family(client_async: bool):
     return fam
 
 
+def _history_family(client_async: bool):
+    def fam(w: World) -> None:
+        """A long-lived client: several scripted requests one after another; pairing is judged per request."""
+        ch = w.ch
+        n_req = 2 + ch.draw(3, 'history.n')
+        first = CS.draw_scenario(ch, cancel=False, max_tracers=3)
+        first['placement'], first['request_strategy'] = 'client', 'unset'
+        n = first['client_strategy']['backoff']['attempts'] if first['client_strategy'] else 0
+        scns = [first]
+        for _ in range(n_req - 1):
+            nxt = CS.draw_scenario(ch, cancel=False, max_tracers=3)
+            for key in ('client_strategy', 'strict', 'server_async', 'tracers'):
+                nxt[key] = first[key]
+            nxt['placement'], nxt['request_strategy'] = 'client', 'unset'
+            scns.append(nxt)
+        for scn in scns:
+            scn['script'] = (scn['script'] * 3)[:n + 2]
+            c09.normalise_script(scn)
+        w.scenario = {'client_async': client_async, 'requests': scns}
+        w.nontrivial = True
+        stack = None
+        for r, scn in enumerate(scns):
+            obs = CS.run_scenario(w, scn, client_async, reuse=stack, tok_prefix=f'r{r}f')
+            stack = obs.stack
+            before = len(w.violations)
+            judge(w, scn, obs, client_async)
+            if len(w.violations) > before:
+                for v in w.violations[before:]:
+                    v.ctx['request_index'] = r
+                return
+    return fam
+
+
 def _judge_overlapping(w: World, recs: List[Dict[str, Any]], calls: List[Dict[str, Any]], nt: int, ctx: Dict[str, Any]) -> None:
     """Overlapping calls on one client: events are paired per request object, not globally."""
     trace = [r for r in recs if r['kind'].startswith('trace.')]
@@ -318,9 +351,12 @@ def fam_concurrent_threads(w: World) -> None:
 
 
 FAMILIES = {'trace.sync': _family(False), 'trace.async': _family(True),
+            'trace.history.sync': _history_family(False), 'trace.history.async': _history_family(True),
             'trace.concurrent.async': fam_concurrent_async, 'trace.concurrent.threads': fam_concurrent_threads}
 PLAN = {
-    'quick': {'trace.sync': 48000, 'trace.async': 64000, 'trace.concurrent.async': 20000, 'trace.concurrent.threads': 3000},
-    'thorough': {'trace.sync': 40000, 'trace.async': 60000, 'trace.concurrent.async': 60000, 'trace.concurrent.threads': 9000},
+    'quick': {'trace.sync': 48000, 'trace.async': 64000, 'trace.concurrent.async': 20000, 'trace.concurrent.threads': 3000,
+              'trace.history.sync': 10000, 'trace.history.async': 10000},
+    'thorough': {'trace.sync': 40000, 'trace.async': 60000, 'trace.concurrent.async': 60000, 'trace.concurrent.threads': 9000,
+                 'trace.history.sync': 30000, 'trace.history.async': 30000},
 }
 THOROUGH_BUDGET_S = 600
